@@ -1,4 +1,4 @@
-import ScrutModel.Lemmas.UpdateReread
+import ScrutModel.Lemmas.UpdateRetok
 /-!
 # C10 — `update` rewrites only scrut blocks, keeps everything else, and is idempotent
 
@@ -35,29 +35,37 @@ lists and all generated texts:
 * `C10_passing_verbatim` – if the generated text is the code of the block as written (which is
   what `generate_testcase` produces for a passing test: `$`/`>` lines, the expectation lines as
   written, the exit code line), the whole body is reproduced line for line;
-* `C10_idempotent_partial` – a second update whose token stream carries the same texts and which is
-  given the same generated texts writes the same document.  That re-tokenizing the updated
-  document gives back the same texts is **not proved** here; it is decided on the real code by the
-  harness oracle "update twice with the same outcomes" (exhaustively for all documents up to four
-  lines over the branch alphabet), which found one open exception, kept below as a closed
-  witness: `C10_not_idempotent_stray_cr_witness` (`\r\r\n`: one CR is dropped per update), and one
-  that was repaired by fix cdbfbca (`{  }` became `{}` and then disappeared; regression example
-  `C10_blank_config_idempotent`).  The other,
-  known, exception is `gen' ≠ gen`: a block rewritten from retained quantified expectations can
-  still fail on the same output (C09 finding `update-retained-quantified-expectations`, harness
-  class `C10:not-idempotent-retained-quantified-expectations`).
-
-Two steps of the missing re-tokenization are proved: `C10_lines_read_back` (LF-terminated lines
-without a final CR are read back by `str::lines()` as they are – the stray-CR finding is exactly
-the excluded case) and `C10_fence_line_read_back` (the fence line written for a block is recognised
-again with the same backticks and language and with a configuration that is written in the same
-way again – the repaired blank-configuration finding).  What remains unproved is running the
-tokenizer over the concatenation of the rewritten segments.
+* `C10_same_commands` – the updated document is tokenized into the same tokens in the same order
+  (`Reread`): the same texts outside scrut blocks, every scrut block with its language, its
+  configuration as `update` writes it and its comment lines; a block without code stays without
+  code, the code lines of every other block are exactly the lines of the text generated for its
+  outcome (so what the parser reads as command lines is what `generate_testcase` wrote);
+* `C10_idempotent` – `update (update doc gens) gens = update doc gens`.
+  Both under the decidable guards
+  - no line of the document ends in a carriage return (the open finding
+    `C10:not-idempotent-stray-carriage-return`, `C10_not_idempotent_stray_cr_witness`),
+  - every front-matter is closed (`frontClosed`; open finding
+    `C10:front-matter-unterminated-gains-delimiter`),
+  - the test languages hold no backtick, `{` or white space (`LangOK`; true of `scrut`),
+  - every generated text ends in LF and does not start with a comment line (`GenOK`; true of every
+    text of `generate_testcase`, which starts with `$ `; needed: `C10_idempotent_needs_GenOK`).
+  That no line of a generated text starts with the fence chosen for it is not a guard but proved
+  from `max_backtick_size` (`C10_fence_safe`).  The remaining exception to idempotence is
+  `gen' ≠ gen`: a block rewritten from retained quantified expectations can still fail on the same
+  output, so the *outcomes* of the second run differ (C09 finding
+  `update-retained-quantified-expectations`, harness class
+  `C10:not-idempotent-retained-quantified-expectations`);
+* `C10_idempotent_partial` – the token-level core: token streams with the same texts are written
+  identically; `C10_lines_read_back`, `C10_fence_line_read_back` – the two read-back steps
+  (repaired by fix cdbfbca: `{  }` became `{}` and then disappeared; regression example
+  `C10_blank_config_idempotent`).
 
 Normalisations that are part of the statement: line terminators become LF (CRLF is read as a
 terminator, a final line without terminator gets one).
 
-Not proved (oracle only): `C10_same_commands` (the updated document parses to the same commands).
+Not proved (oracle only): that the real parser, fed these code lines, yields the same shell
+expressions as the original document (re-parse oracle of the well-formed stream; for the generated
+texts that is C09's round trip).
 -/
 namespace Scrut.Props.C10
 open Scrut Scrut.Markdown Scrut.Update
@@ -128,6 +136,36 @@ theorem C10_fence_line_read_back (n : Nat) (hn : 3 ≤ n) (lang : Line) (hl : La
   obtain ⟨c, h1, h2⟩ := fence_line_reread n hn lang hl cfg
   exact ⟨c, by rw [extractCodeBlockStart_eq, h1], h2⟩
 
+/-- No line of a generated text starts with the fence that `update` chooses for its block
+(`max_backtick_size + 1` backticks): the text cannot close its own block early. -/
+theorem C10_fence_safe (g : List Char) :
+    ∀ l ∈ splitLines g, startsWith l (backticks (maxBacktickSize g + 1)) = false :=
+  gen_lines_fence_safe g
+
+/-- The updated document is tokenized into the same tokens, in the same order: same texts outside
+scrut blocks, same language / configuration / comment lines per block, code lines = the lines of
+the generated text. -/
+theorem C10_same_commands (L : List Line) (hL : ∀ lang, L.contains lang = true → LangOK lang)
+    (gens : List (Option (List Char))) (hne : gens ≠ [])
+    (hg : ∀ (k : Nat) (g : List Char), gens[k]? = some (some g) → GenOK g)
+    (doc out : List Char) (hcr : ∀ l ∈ splitLines doc, l.getLast? ≠ some '\r')
+    (toks : List Tok) (ht : tokenize L (splitLines doc) = .ok toks)
+    (hfc : frontClosed (splitLines doc).length 0 toks = true)
+    (h : generateUpdate L doc gens = .ok out) :
+    ∃ toks', tokenize L (splitLines out) = .ok toks' ∧ Reread gens 0 toks toks' :=
+  generateUpdate_reread L hL gens hne hg doc out hcr toks ht hfc h
+
+/-- **Idempotence**: updating the updated document with the same generated texts changes nothing. -/
+theorem C10_idempotent (L : List Line) (hL : ∀ lang, L.contains lang = true → LangOK lang)
+    (gens : List (Option (List Char))) (hne : gens ≠ [])
+    (hg : ∀ (k : Nat) (g : List Char), gens[k]? = some (some g) → GenOK g)
+    (doc out : List Char) (hcr : ∀ l ∈ splitLines doc, l.getLast? ≠ some '\r')
+    (toks : List Tok) (ht : tokenize L (splitLines doc) = .ok toks)
+    (hfc : frontClosed (splitLines doc).length 0 toks = true)
+    (h : generateUpdate L doc gens = .ok out) :
+    generateUpdate L out gens = .ok out :=
+  generateUpdate_idempotent L hL gens hne hg doc out hcr toks ht hfc h
+
 /-! ## witnesses and non-vacuity -/
 
 /-- the default language satisfies `LangOK` -/
@@ -189,5 +227,29 @@ example : ∃ toks, tokenize scrut (splitLines docNormal) = .ok toks ∧
 example : AllSame [.line 0 ['a'], .test ['s'] [] [(1, ['#'])] [(2, ['x'])]]
     [.line 5 ['a'], .test ['s'] [] [(7, ['#'])] [(8, ['y']), (9, ['z'])]] :=
   .cons rfl (.cons ⟨rfl, rfl, rfl, rfl⟩ .nil)
+
+def docOneBlock : List Char := ['`', '`', '`', 's', 'c', 'r', 'u', 't', '\n', '$', ' ', 'x', '\n', '`', '`', '`', '\n']
+def genComment : List Char := ['#', ' ', 'c', '\n', '$', ' ', 'x', '\n']
+def out1Comment : List Char := ['`', '`', '`', 's', 'c', 'r', 'u', 't', '\n', '#', ' ', 'c', '\n', '$', ' ', 'x', '\n', '`', '`', '`', '\n']
+def out2Comment : List Char := ['`', '`', '`', 's', 'c', 'r', 'u', 't', '\n', '#', ' ', 'c', '\n', '#', ' ', 'c', '\n', '$', ' ', 'x', '\n', '`', '`', '`', '\n']
+
+/-- `GenOK` is needed: a generated text that starts with a comment line is read back as a comment
+in front of the code, and the next update writes it twice.  (No text of `generate_testcase` starts
+like that.) -/
+theorem C10_idempotent_needs_GenOK :
+    generateUpdate scrut docOneBlock [some genComment] = .ok out1Comment ∧
+    generateUpdate scrut out1Comment [some genComment] = .ok out2Comment ∧ out2Comment ≠ out1Comment := by
+  refine ⟨by rfl, by rfl, by decide⟩
+
+/-- the guards of `C10_idempotent` hold for the example document and its generated text -/
+example : GenOK genNew := ⟨by rfl, by rfl⟩
+example : ∀ l ∈ splitLines docNormal, l.getLast? ≠ some '\r' := by decide
+example : ∀ lang, scrut.contains lang = true → LangOK lang := by
+  intro lang h
+  have : lang = ['s', 'c', 'r', 'u', 't'] := by simpa [scrut] using h
+  subst this
+  intro c hc
+  simp only [List.mem_cons, List.not_mem_nil, or_false] at hc
+  rcases hc with rfl | rfl | rfl | rfl | rfl <;> decide
 
 end Scrut.Props.C10
